@@ -27,7 +27,7 @@ func init() {
 	extraCorpus = append(extraCorpus, func(c *Ctx, r *rand.Rand) []map[string]string {
 		var out []map[string]string
 		progs := c09Programs(1, 12)
-		progs = append(progs, c09TypedDecls(), c09VariadicTypes())
+		progs = append(progs, c09TypedDecls(), c09VariadicTypes(), c09NamedTypes(false), c09NamedTypes(true))
 		for _, p := range progs {
 			out = append(out, map[string]string{"main/main.go": p.Source(false, nil)})
 		}
@@ -405,7 +405,7 @@ func checkC09(c *Ctx) {
 	nsig := len(c09Signatures(maxP))
 	c.Extra["signatures"] = nsig
 	progs = append(progs, c09Recursion(c.pick(300, 1500)))
-	progs = append(progs, c09TypedDecls(), c09VariadicTypes())
+	progs = append(progs, c09TypedDecls(), c09VariadicTypes(), c09NamedTypes(false), c09NamedTypes(true))
 	// seeded random call-heavy programs: function literals, method values, return f(), variadics
 	r := rand.New(rand.NewSource(c.Seed))
 	for i := 0; i < c.pick(300, 5000); i++ {
@@ -621,4 +621,53 @@ func c09Redefinitions(c *Ctx) {
 			}
 		}
 	}
+}
+
+// c09NamedTypes: defined non-struct types (type Lv int8, type Cs uint8, type Li []int) as parameter and result types: an
+// untyped constant or nil passed / returned takes the underlying type. split: the types live in an imported package and
+// are spelled lib.Lv in the signatures.
+func c09NamedTypes(split bool) *Prog {
+	id := "c09/named-types"
+	if split {
+		id += "-qualified"
+	}
+	p := &Prog{ID: id, Pkg: "main", Main: "Main"}
+	tLv := &Ty{K: "int8", Alias: "Lv"}
+	tCs := &Ty{K: "uint8", Alias: "Cs"}
+	tLi := &Ty{K: "slice", Elem: TInt, Alias: "Li"}
+	p.TypeDefs = append(p.TypeDefs, &TypeDef{Name: "Lv", Under: TInt8}, &TypeDef{Name: "Cs", Under: TUint8}, &TypeDef{Name: "Li", Under: SliceOf(TInt)})
+	call := func(fn string, t *Ty, n int, args ...*E) *E { return &E{K: "call", Fn: fn, Ty: t, NRes: n, Args: args} }
+	p.Funcs = append(p.Funcs,
+		&Func{Name: "keep", Params: []string{"a"}, PTypes: []*Ty{tLv}, Results: []*Ty{tLv}, Body: []*S{ret(v("a", tLv))}},
+		&Func{Name: "twice", Params: []string{"x"}, PTypes: []*Ty{tLv}, Results: []*Ty{tLv}, Body: []*S{ret(bin("+", tLv, v("x", tLv), v("x", tLv)))}},
+		&Func{Name: "mix", Params: []string{"a", "s", "b"}, PTypes: []*Ty{tCs, TString, tCs}, Results: []*Ty{tCs}, Body: []*S{ret(bin("+", tCs, v("a", tCs), v("b", tCs)))}},
+		&Func{Name: "pair", Params: []string{"n"}, PTypes: []*Ty{TInt}, Results: []*Ty{tCs, tLv}, Body: []*S{ret(lit(tCs, 200), lit(tLv, 100))}},
+		&Func{Name: "viaPair", Params: []string{"n"}, PTypes: []*Ty{TInt}, Results: []*Ty{tCs, tLv}, Body: []*S{{K: "return", NRes: 2, Exprs: []*E{call("pair", nil, 2, v("n", TInt))}}}},
+		&Func{Name: "none", Params: []string{"n"}, PTypes: []*Ty{TInt}, Results: []*Ty{tLi}, Body: []*S{ret(&E{K: "zero", Ty: tLi})}},
+		&Func{Name: "count", Params: []string{"l"}, PTypes: []*Ty{tLi}, Results: []*Ty{TInt}, Body: []*S{ret(lenOf(v("l", tLi)))}},
+		&Func{Name: "spread", Params: []string{"xs"}, PTypes: []*Ty{SliceOf(tCs)}, Variadic: true, Results: []*Ty{tCs}, Body: []*S{
+			ret(bin("+", tCs, &E{K: "index", Ty: tCs, X: v("xs", SliceOf(tCs)), I: lit(TInt, 0)}, &E{K: "index", Ty: tCs, X: v("xs", SliceOf(tCs)), I: lit(TInt, 1)}))}},
+	)
+	body := []*S{
+		pr(sS("twice"), call("twice", tLv, 1, lit(tLv, 100)), call("twice", tLv, 1, call("keep", tLv, 1, lit(tLv, 70)))),
+		pr(sS("mix"), call("mix", tCs, 1, lit(tCs, 200), sS("x"), lit(tCs, 100))),
+		{K: "decl", Names: []string{"c", "l"}, Exprs: []*E{call("pair", nil, 2, lit(TInt, 1))}},
+		{K: "opassign", Lhs: []*E{v("c", tCs)}, Op: "+", E: lit(tCs, 100)},
+		{K: "opassign", Lhs: []*E{v("l", tLv)}, Op: "+", E: lit(tLv, 100)},
+		pr(sS("pair"), v("c", tCs), v("l", tLv)),
+		{K: "decl", Names: []string{"c2", "l2"}, Exprs: []*E{call("viaPair", nil, 2, lit(TInt, 1))}},
+		{K: "opassign", Lhs: []*E{v("c2", tCs)}, Op: "+", E: lit(tCs, 100)},
+		{K: "opassign", Lhs: []*E{v("l2", tLv)}, Op: "+", E: lit(tLv, 100)},
+		pr(sS("viaPair"), v("c2", tCs), v("l2", tLv)),
+		dcl("x", call("none", tLi, 1, lit(TInt, 1))),
+		pr(sS("none"), call("count", TInt, 1, v("x", tLi)), call("count", TInt, 1, &E{K: "zero", Ty: tLi})),
+		asg(v("x", tLi), &E{K: "append", Ty: tLi, X: v("x", tLi), Args: []*E{lit(TInt, 5)}}),
+		pr(sS("appended"), lenOf(v("x", tLi)), &E{K: "index", Ty: TInt, X: v("x", tLi), I: lit(TInt, 0)}),
+		pr(sS("spread"), call("spread", tCs, 1, lit(tCs, 200), lit(tCs, 100))),
+	}
+	p.Funcs = append(p.Funcs, &Func{Name: "Main", Body: body})
+	if split {
+		p.Split = &pkgSplit{lib: map[string]bool{"Lv": true, "Cs": true, "Li": true, "keep": true}, vars: map[string]bool{}, path: "app/lib"}
+	}
+	return p
 }
